@@ -1,6 +1,8 @@
 """Per-function control-flow graph utilities over hwx facts: successors without
 unwind edges, dominators, def-use, symbolic expressions of operands, and the
 facts implied by taking a conditional edge."""
+import re
+
 from .facts import strip_generics, strip_type_args
 
 MAXD = 14
@@ -671,6 +673,52 @@ def decompose(db, e, val, out, depth=0):
             return
         if dn == "core::ops::bit::Not::not" and args:
             decompose(db, args[0], ("is", 0 if b else 1), out, depth + 1)
+            return
+        # `(a..=b).contains(&x)` / `(a..b).contains(&x)`: when true, x is within the bounds
+        if re.search(r"^core::ops::range::(RangeInclusive|Range|RangeFrom|RangeTo|RangeToInclusive)::contains$", dn) and len(args) == 2:
+            out.append(("bool", e, b))
+            if b:
+                r_ = peel(args[0])
+                x = peel(args[1])
+                lo = hi = None
+                incl = "Inclusive" in dn
+                if r_[0] == "call" and (r_[1].get("dn") or "").endswith("RangeInclusive::new") and len(r_[2]) == 2:
+                    lo, hi = peel(r_[2][0]), peel(r_[2][1])
+                elif r_[0] == "agg" and isinstance(r_[1], dict) and "range::Range" in (r_[1].get("adt") or ""):
+                    names = r_[1].get("fields") or []
+                    for nm, op in zip(names, r_[2]):
+                        if nm == "start":
+                            lo = peel(op)
+                        elif nm == "end":
+                            hi = peel(op)
+                if lo is not None:
+                    out.append(("cmp", "Ge", x, lo))
+                if hi is not None:
+                    out.append(("cmp", "Le" if incl else "Lt", x, hi))
+            return
+        # `opt.is_some_and(|v| p(v))`: when true, opt is Some and the closure's result is true
+        if dn in ("core::option::Option::is_some_and", "core::result::Result::is_ok_and") and len(args) == 2:
+            out.append(("bool", e, b))
+            if b:
+                nm = "Some" if dn.endswith("is_some_and") else "Ok"
+                adt = "core::option::Option" if nm == "Some" else "core::result::Result"
+                out.append(("variant", peel(args[0]), adt, nm, True))
+                c_ = peel(args[1])
+                if c_[0] == "agg" and isinstance(c_[1], dict) and c_[1].get("closure") and db is not None:
+                    for cf in db.by_key.get(strip_generics(c_[1]["closure"]), []):
+                        rets = []
+                        for i_, b_ in enumerate(cf["blocks"]):
+                            if b_.get("c"):
+                                continue
+                            t_ = b_["t"]
+                            if t_[0] == "call" and t_[3][0] == 0 and not t_[3][1]:
+                                rets.append(("call", t_[1], [expr_operand(cf, a_) for a_ in t_[2]], i_))
+                            for s_ in b_["s"]:
+                                if s_[0] == "=" and s_[1][0] == 0 and not s_[1][1]:
+                                    rets.append(expr_rvalue(cf, s_[2]))
+                        if len(rets) == 1:
+                            decompose(db, rets[0], ("is", 1), out, depth + 1)
+                        break
             return
         out.append(("bool", e, b))
         return
